@@ -18,7 +18,7 @@ inductive GenImpl where
   | deref (d : DerefImpl)
 deriving Inhabited
 
-def GenImpl.render : GenImpl → List Toks
+def GenImpl.render : GenImpl → List GToks
   | .cmp c => c.render
   | .ops o => o.render
   | .clone c => [c.render]
@@ -96,9 +96,9 @@ def enumCore (attr : Option Args) (en : ItemEnum) : CoreOut :=
 /-! ## Output segments -/
 
 inductive SegBody where
-  | toks (ts : Toks)
+  | toks (ts : GToks)
   | err
-  | dump (ts : Toks)
+  | dump (ts : GToks)
 deriving Inhabited
 
 structure OSeg where
@@ -140,12 +140,12 @@ def expandAttr (attr : Args) (item : Item) : List OSeg :=
   match item with
   | .struct_ s =>
     let c := structCore (some attr) s
-    { label := "item", body := .toks (stripStruct c.kinds s).toks } :: coreSegs c.result
+    { label := "item", body := .toks (U (stripStruct c.kinds s).toks) } :: coreSegs c.result
   | .enum_ e =>
     let c := enumCore (some attr) e
-    { label := "item", body := .toks (stripEnum c.kinds e).toks } :: coreSegs c.result
-  | .impl_ i => { label := "item", body := .toks i.toks } :: implSegs attr i
-  | .other ts => [{ label := "item", body := .toks ts }, { label := "err", body := .err }]
+    { label := "item", body := .toks (U (stripEnum c.kinds e).toks) } :: coreSegs c.result
+  | .impl_ i => { label := "item", body := .toks (U i.toks) } :: implSegs attr i
+  | .other ts => [{ label := "item", body := .toks (U ts) }, { label := "err", body := .err }]
 
 /-- `#[derive(Ex)] item` -/
 def expandDerive (item : Item) : List OSeg :=
